@@ -333,6 +333,10 @@ const (
 	// to the case directory (no neighbours, no decoys): whatever an operation does to a container that has
 	// become empty, or to the last entry of one, shows in the snapshot
 	preAlone = "alone"
+	// like absent, but the ENVIRONMENT of the process offers a plugin of that name elsewhere: an executable
+	// notation-<name> in a directory of PATH, and <name>/notation-<name> below the default plugin directories
+	// (dir.UserLibexecDir, XDG_CONFIG_HOME, HOME). The manager was given its root explicitly: none of them counts.
+	preEnv = "absent-but-offered-by-environment"
 )
 
 // ---------------------------------------------------------------- replay
@@ -405,6 +409,11 @@ func newWorld(r *hx.Run) *world {
 	for i := 0; i < n; i++ {
 		w.masters <- w.newMaster()
 		w.nxMasters <- w.newNxMaster()
+	}
+	// The process itself needs no PATH: an empty directory, so that nothing of the machine can be found by name.
+	emptyBin := filepath.Join(w.scratch, "empty-bin")
+	if err := os.MkdirAll(emptyBin, 0o755); err == nil {
+		_ = os.Setenv("PATH", emptyBin)
 	}
 	// Anything the real code does relative to the working directory must land in the scratch space.
 	cwd := filepath.Join(w.scratch, "cwd", "l1", "l2", "l3", "l4", "l5", "l6", "l7")
@@ -565,11 +574,11 @@ func (c *caseEnv) plan(raw string) (final string, inter []string, ok bool) {
 		if !within(d, c.dir) && !within(c.dir, d) {
 			return "", nil, false
 		}
-		if c.pre == preAbsent && within(d, c.root) && d != c.root {
+		if (c.pre == preAbsent || c.pre == preEnv) && within(d, c.root) && d != c.root {
 			return "", nil, false
 		}
 	}
-	if c.pre == preAbsent && within(final, c.root) {
+	if (c.pre == preAbsent || c.pre == preEnv) && within(final, c.root) {
 		return "", nil, false
 	}
 	return final, inter, true
@@ -708,6 +717,30 @@ func (c *caseEnv) populate() {
 	must(os.WriteFile(R+"/keep.txt", []byte("ordinary file in the plugin root\n"), 0o644))
 	c.pre = save
 
+	if !mustReject(c.name) {
+		// collisions by construction: installed neighbours whose names are made from the name (what a staging,
+		// backup, temporary or lock location next to the plugin would be called, case variants, trailing dot/blank)
+		eff := path.Clean(c.name)
+		save := c.pre
+		c.pre = preInstalled
+		for _, v := range siblingNames(eff) {
+			if c.placeExec(filepath.Join(R, v, "notation-"+v), false) {
+				_ = os.WriteFile(filepath.Join(R, v, "data.txt"), []byte("a file of the neighbour plugin "+v+"\n"), 0o644)
+			}
+		}
+		c.pre = save
+	}
+	if c.pre == preEnv {
+		for _, n := range derived(c.name) {
+			if strings.ContainsAny(n, "/\x00") || n == "." || n == ".." || len(n)+14 > 255 {
+				continue
+			}
+			c.placeExec(filepath.Join(c.envDir("bin"), "notation-"+n), true)
+			c.placeExec(filepath.Join(c.envDir("libexec"), "plugins", n, "notation-"+n), true)
+			c.placeExec(filepath.Join(c.envDir("xdg"), "notation", "plugins", n, "notation-"+n), true)
+			c.placeExec(filepath.Join(c.envDir("home"), ".config", "notation", "plugins", n, "notation-"+n), true)
+		}
+	}
 	for _, n := range derived(c.name) {
 		// executables first: where the executable path and the plugin directory of a name denote the same
 		// place (<run>/../../x) a file witnesses both execution and deletion
@@ -744,6 +777,30 @@ func (c *caseEnv) populate() {
 	c.placeExec(c.dir+"/tmp/evil/notation-evil", false)
 	c.placeExec(c.dir+"/x/notation-x", false)
 	c.placeDir(c.dir+"/x", false)
+}
+
+func (c *caseEnv) envDir(what string) string { return filepath.Join(c.dir, "env", what) }
+
+// siblingNames: single-component names made from x that a careless implementation might use next to <root>/<x>.
+func siblingNames(x string) []string {
+	var out []string
+	seen := map[string]bool{x: true}
+	add := func(v string) {
+		if !seen[v] && singleComponent(v) && len(v)+14 <= 255 {
+			seen[v] = true
+			out = append(out, v)
+		}
+	}
+	for _, suf := range []string{".new", ".old", ".tmp", ".bak", ".backup", ".orig", ".staging", ".partial", ".lock", ".1", "~", "-new", "_old", ".", " "} {
+		add(x + suf)
+	}
+	for _, pre := range []string{".", "_", "~", "tmp-", ".tmp-", "new-", "old-"} {
+		add(pre + x)
+	}
+	add(strings.ToUpper(x))
+	add(strings.ToLower(x))
+	add(strings.Title(x))
+	return out
 }
 
 // legalFileName reports whether notation-<name> can be the name of a file.
@@ -927,6 +984,29 @@ func (w *world) runOp(c *caseEnv, op, src string) (res opResult) {
 			res.firstErr = res.err
 		}
 	}()
+	if c.pre == preEnv || op == opAddPlugin {
+		// process-wide settings: one such case at a time
+		w.addMu.Lock()
+		oldLibexec, oldConfig, oldCache := dir.UserLibexecDir, dir.UserConfigDir, dir.UserCacheDir
+		oldEnv := map[string]string{}
+		if c.pre == preEnv {
+			dir.UserLibexecDir = c.envDir("libexec")
+			for k, v := range map[string]string{"PATH": c.envDir("bin"), "XDG_CONFIG_HOME": c.envDir("xdg"), "HOME": c.envDir("home")} {
+				oldEnv[k] = os.Getenv(k)
+				_ = os.Setenv(k, v)
+			}
+		}
+		if op == opAddPlugin {
+			dir.UserLibexecDir = filepath.Dir(c.root) // dir.PluginFS() = <libexec>/plugins = c.root
+		}
+		defer func() {
+			dir.UserLibexecDir, dir.UserConfigDir, dir.UserCacheDir = oldLibexec, oldConfig, oldCache
+			for k, v := range oldEnv {
+				_ = os.Setenv(k, v)
+			}
+			w.addMu.Unlock()
+		}()
+	}
 	mgr := plugin.NewCLIManager(dir.NewSysFS(c.root))
 	switch op {
 	case opGet:
@@ -947,13 +1027,7 @@ func (w *world) runOp(c *caseEnv, op, src string) (res opResult) {
 		res.firstErr = res.err
 	case opAddPlugin:
 		res.evals = 1
-		w.addMu.Lock()
-		old := dir.UserLibexecDir
-		dir.UserLibexecDir = filepath.Dir(c.root) // dir.PluginFS() = <libexec>/plugins = c.root
-		func() {
-			defer func() { dir.UserLibexecDir = old; w.addMu.Unlock() }()
-			res.err = (&config.SigningKeys{}).AddPlugin(ctx, "key", "id", c.name, nil, false)
-		}()
+		res.err = (&config.SigningKeys{}).AddPlugin(ctx, "key", "id", c.name, nil, false)
 		res.firstErr = res.err
 	case opVerifyJWS, opVerifyCOSE, opVerifyJWSUn, opVerifyCOSEUn:
 		format := forge.JWS
@@ -1198,7 +1272,7 @@ func (w *world) runCase(ns nameSpec, depth int, pre, op string) string {
 	if ns.Control {
 		// non-vacuity: the honest name must really work
 		ok := false
-		inst := pre != preAbsent
+		inst := pre == preInstalled || pre == preAlone
 		_, statErr := os.Lstat(plugExe)
 		switch fam {
 		// (only what an honest plugin manager must do whatever its internals: no error type, no error text,
@@ -1590,7 +1664,7 @@ func (w *world) runHistory(ns nameSpec, depth int, pre string, steps []string) s
 	markerOff := 0
 	violated := false
 	// reference model, used for the positive controls only (non-vacuity, never a violation)
-	installed := pre != preAbsent
+	installed := pre == preInstalled || pre == preAlone
 	modelOK := true
 	var trace []string
 
@@ -1950,7 +2024,10 @@ func main() {
 	var jobs []job
 	for _, ns := range names {
 		for _, d := range depths {
-			for _, pre := range []string{preInstalled, preAbsent, preAlone} {
+			for _, pre := range []string{preInstalled, preAbsent, preAlone, preEnv} {
+				if pre == preEnv && (d != depths[0] || mustReject(ns.instantiate("/scratch/case"))) {
+					continue // (process-wide settings serialise these cases: names that may be served, one depth)
+				}
 				for _, op := range ops {
 					jobs = append(jobs, job{ns: ns, depth: d, pre: pre, op: op})
 				}
@@ -2000,7 +2077,7 @@ func main() {
 	r.Extra["names"] = len(names)
 	r.Extra["depths"] = depths
 	r.Extra["operations"] = ops
-	r.Extra["pre_states"] = []string{preInstalled, preAbsent, preAlone}
+	r.Extra["pre_states"] = []string{preInstalled, preAbsent, preAlone, preEnv}
 	r.Extra["name_cases"] = nameCases
 	r.Extra["list_cases"] = listCases
 	var acc, unacc int
